@@ -8,5 +8,6 @@ CONSTANTS
   TD <- ToDecBug
   NT <- NumText
   NTL <- NumTextLoc
+  CV <- Convert
 INVARIANTS LawDecRoundTrip
 CHECK_DEADLOCK FALSE
